@@ -80,7 +80,9 @@ def make(tid, items, refs, short=False):
                "dist": short_distance(r, tpl) if short else None}
         env.update(r.vals)
         return ctx.known(PID, tags, env), info
-    return Ob("C03:" + tid, body, timeout=90, tags=tags, text=tpl.text)
+    ob = Ob("C03:" + tid, body, timeout=90, tags=tags, text=tpl.text)
+    ob.items = items
+    return ob
 
 
 def short_distance(r, tpl):
